@@ -28,9 +28,9 @@ CLAIMED = {
     "C07": ("snp and raw counts are proved equal to the column counts of the statement for every pair of valid sequences (from the finite table sweeps), with symmetry, n<=d, and zero on identical unambiguous sequences; the tn93 column classes (differences, purine/pyrimidine transitions, compared sites) are proved to be the named ones; eq. (7) is written over R (TN93Spec.v, zero on identical proved). raw is modelled bit-exactly (SpecFloat division, exact 'f',9 formatting). Correspondence: complete 32x32 symbol grid + random pairs through closest --table (bytes) and the float values of the three Go distance functions (bit-exact vs spec for raw/snp; per-pair kernel-checked interval enclosure at 1e-12 for tn93).",
             "Coq proof (induction over columns + table sweeps; SpecFloat model) + correspondence check; tn93 value: certified interval enclosure per sampled pair (partial)",
             "PARTIAL for tn93: the float evaluation of eq. (7) (math.Log, rounding) is not modelled; sampled pairs are certified individually with coq-interval, which depends on the standard library's real-number axioms (ClassicalDedekindReals.sig_forall_dec, sig_not_dec, functional_extensionality_dep, Classical_Prop.classic).", "5 C07"),
-    "C01": ("Proved for every CIGAR/POS/reference length: the row built from a record has the reference length and at every reference position holds the cell a two-counter walk of the CIGAR assigns (one_line_cell); per-column flattening gives 'N' for two different bases and otherwise the greatest of base > '-' > '*'; the flank/internal rewrite and the --pad rewrite are characterised position-wise; records with 0x4/0x100 never contribute wherever they sit; composed: the row of a block before the rewrite is, at every reference position, the flattening of the cells its records' CIGARs align there. The whole command (grouping, flattening, rewrite, window, wrap, writers) is a Coq model compared byte for byte with sam.ToMultiAlign, and the implementation's bytes are also compared with an oracle written from the statement.",
+    "C01": ("Proved for every CIGAR/POS/reference length: the row built from a record has the reference length and at every reference position holds the cell a two-counter walk of the CIGAR assigns (one_line_cell); per-column flattening gives 'N' for two different bases and otherwise the greatest of base > '-' > '*'; the flank/internal rewrite and the --pad rewrite are characterised position-wise; records with 0x4/0x100 never contribute wherever they sit; composed: the row of a block before the rewrite is, at every reference position, the flattening of the cells its records' CIGARs align there; the blocks are the non-skipped records in input order cut into non-empty runs of one name; and the whole command (grouping, flattening, rewrite, window, wrap, writers) equals, for every record list and option set, a specification command written position by position from the statement (command_eq_spec). The command is a Coq model compared byte for byte with sam.ToMultiAlign, and the implementation's bytes are also compared with an oracle written from the statement.",
             "Coq proof (induction over CIGAR operators and columns) + correspondence check + statement-level oracle",
-            "SAM text parsing (biogo/hts) is trusted; block = consecutive records of one name. Window, wrap and writer stages are composed only in the executable model (tied by the correspondence check and the oracle).", "5 C01"),
+            "SAM text parsing (biogo/hts) is trusted; block = consecutive records of one name (the statement's 'one record per query name' presumes a query's records are contiguous, as aligners write them).", "5 C01"),
     "C04": ("Proved (model carries, next to every emitted record, the reference positions it mentions): the coordinate map sends position p to its own non-gap column; every position is in a reported region or in the intergenic list, never both; intergenic nuc: records iff the symbols test disjoint; the codon loop of a region (any strand/joins, length multiple of 3) mentions EXACTLY the region's positions whose symbols test disjoint (invariant over the fold); the merged list mentions p iff p is a reference position whose symbols test disjoint; after the stable sort and duplicate removal nothing is invented (soundness) and nothing is dropped (completeness, for pairwise distinct feature names: records of one feature differ in residue number, of different features in name). The aa: rule per feature: the codon loop is a function of consecutive position triples (codon_loop_spec); an aa: record for codon j is emitted exactly when the query codon's product on the feature's strand is neither X nor the reference residue, with residue j+1, both residues and the feature name (sound and complete); that product is b iff the codon consists of three IUPAC codes all of whose expansions translate to b under the standard genetic code; the GFF path's reference residues are the unique products of the reference codons. The whole command is also compared byte for byte with variants.Variants and every output row is checked by an oracle written from the statement (standard code, strands, joins).",
             "Coq proof (fold invariant over the codon loop, partition, sort/dedupe lemmas) + correspondence check + statement-level oracle",
             "PARTIAL: the aa: theorems are per feature (getAAsPair); that every aa: record survives the merge/sort/duplicate removal is not separately stated; GenBank /translation text and the regions built by the implementation's parsers (C14) are inputs.", "5 C04"),
